@@ -113,6 +113,14 @@ func Main(id, tier string) int {
 		}
 	}
 
+	if chk.Post != nil {
+		chk.Post(sum)
+	}
+	for k := range sum.Counters {
+		if strings.HasPrefix(k, "xhash|") {
+			delete(sum.Counters, k)
+		}
+	}
 	exit := 0
 	var lines []string
 	nViolReported := 0
@@ -319,6 +327,16 @@ func Main(id, tier string) int {
 		}
 	}
 
+	for i, v := range sum.PostViol {
+		if i >= 5 {
+			break
+		}
+		path := filepath.Join(outDir, "replay", fmt.Sprintf("%s-%s-post%d.json", id, tier, i))
+		os.WriteFile(path, mustJSONIndent(Replay{Property: id, Tier: tier, Scope: v.Scope, Index: v.Index, Kind: v.Kind, Detail: v.Detail}), 0o644)
+		lines = append(lines, fmt.Sprintf("VIOLATION property=%s replay=%s", id, path), "  "+firstLine(v.Kind+": "+v.Detail))
+		nViolReported++
+		exit = 1
+	}
 	if len(sum.Internal) > 0 && exit == 0 {
 		exit = 2
 	}
